@@ -33,7 +33,7 @@ package main
 //              ctx.Err() returned as it is / wrapped with %w / wrapped in the harness's type; values wrapping the
 //              library's own sentinels; values whose As / Is methods answer true to everything.  putscript only: v in
 //              [300,400) = the error of character (v-300)/10 returned TOGETHER with the message (return m, err)
-//   sub      = ( topics idopt wscript selfcancel start cancelopt [via] )  cancelopt = () never | ( cond )
+//   sub      = ( topics idopt wscript selfcancel start cancelopt [via [client]] )  cancelopt = () never | ( cond )
 //              (( () ) = cancelled before Subscribe is called)
 //              via (bits): 1 = the subscriber is an HTTP session: it comes in through sse.Server.ServeHTTP (a request with the
 //              scenario's Last-Event-ID header, a ResponseWriter that can flush), the Server's OnSession callback answers
@@ -44,6 +44,17 @@ package main
 //              ok to a real *sse.Session (the Server's, or one made by sse.Upgrade) over a sink: whatever that does
 //              with what Joe hands it happens on Joe's goroutine (a panic there ends the process: status 1).
 //              The topics the trace records for a subscriber (sub.enter) are the EFFECTIVE ones (default topic filled in).
+//              client (what the Subscription's Client field holds - the VALUE Joe sees, its identity and comparability):
+//              n0 a pointer of the subscriber's own (the recording writer itself).  n1 a value of a FUNC type with
+//              methods (as the library suite's own mockClient), n2 a struct holding a slice, n3 a struct holding a map,
+//              both passed BY VALUE - dynamic types that cannot be compared: `==` on two such interface values panics.
+//              n10+g: the subscriber shares ONE writer object (group g) with the other subscribers of that number - one
+//              connection subscribed several times with different topics; the Client values are the same pointer.
+//              n20+g: the same, the Client values being equal comparable struct VALUES.  A shared writer hands every
+//              call to the recording writer of the subscription the call is for: inside a Replay the subscription the
+//              loop is handling (loop.sub .. loop.replayed), in a fan-out the member of the group whose topics
+//              intersect the message's (the generators give the members of a group topics such that no publication
+//              matches two of them).  What Joe owes a subscription does not depend on what its Client value is or equals.
 //   pub      = ( start msgs )  a publisher thread;  msg = ( topics idopt pre [shape [same [flags]]] )
 //              flags (bits): 1 = published through sse.Server.Publish(m, topics...) - no topics there means the default
 //              topic (Joe.Publish without topics is refused with ErrNoTopic); the trace records the effective topics.
@@ -111,6 +122,27 @@ type jSubSpec struct {
 	hasCancel  bool
 	cancel     jCond
 	via        uint64 // bits: 1 through Server.ServeHTTP, 2 forwards to a real Session, 4 OnSession answers nil for "no topics"
+	client     uint64 // what Subscription.Client holds: see jClient* (direct subscribers only)
+}
+
+const (
+	jClientOwn    = 0  // the subscriber's own pointer
+	jClientFunc   = 1  // a func-typed value (uncomparable)
+	jClientSlice  = 2  // a struct with a slice field, by value (uncomparable)
+	jClientMap    = 3  // a struct with a map field, by value (uncomparable)
+	jClientShare  = 10 // + g: the pointer of group g's shared writer
+	jClientShareV = 20 // + g: a comparable struct value around group g's shared writer
+)
+
+// jShareGroup: the group whose writer object the subscriber shares (ok = false: none).
+func (x *jSubSpec) jShareGroup() (g uint64, ok bool) {
+	if x.via&jViaServer != 0 {
+		return 0, false
+	}
+	if x.client >= jClientShare && x.client < jClientShareV+10 {
+		return x.client, true // (the pointer groups and the struct-value groups are different writer objects)
+	}
+	return 0, false
 }
 
 const (
@@ -212,8 +244,11 @@ func (s *jScenario) enc() val.V {
 	for _, x := range s.subs {
 		sv := []val.V{jNums(x.topics), jIDOpt(x.idopt), jNums(x.script), val.Bool(x.selfCancel),
 			x.start.enc(), jCondOpt(x.hasCancel, x.cancel)}
-		if x.via != 0 {
+		if x.via != 0 || x.client != 0 {
 			sv = append(sv, val.N(x.via))
+		}
+		if x.client != 0 {
+			sv = append(sv, val.N(x.client))
 		}
 		subs = append(subs, val.List(sv))
 	}
@@ -275,7 +310,7 @@ func jDecode(v val.V) *jScenario {
 	}
 	for _, x := range v.At(2).Items() {
 		s.subs = append(s.subs, jSubSpec{topics: scriptOf(x.At(0)), idopt: x.At(1), script: scriptOf(x.At(2)),
-			selfCancel: x.At(3).Truth(), start: jDecCond(x.At(4)), hasCancel: x.At(5).Present(), cancel: jDecCond(x.At(5).At(0)), via: x.At(6).Num()})
+			selfCancel: x.At(3).Truth(), start: jDecCond(x.At(4)), hasCancel: x.At(5).Present(), cancel: jDecCond(x.At(5).At(0)), via: x.At(6).Num(), client: x.At(7).Num()})
 	}
 	for _, t := range v.At(3).Items() {
 		pt := jPubSpec{start: jDecCond(t.At(0))}
@@ -545,6 +580,7 @@ type jx struct {
 	ptrTok                  map[*sse.Message]uint64 // the call a pointer stands for once the loop accepted it / Put returned it
 	idTok                   map[string]uint64       // messages without a data token: the IDs Put returned for them
 	writers                 []*jwriter
+	shares                  map[uint64]*jshare // the shared writer objects, by group
 	parksBy                 map[uint64][]*jParkSpec
 
 	pending  int // controllers whose start does not wait for "all others finished" and that are not finished
@@ -708,7 +744,7 @@ func (x *jx) hook(point string, a, b any) {
 	case code == 1:
 		id = jUnknown
 		topics, idopt := val.L(), val.L()
-		if w, ok := b.(*jwriter); ok && w != nil {
+		if w := x.enteringLocked(b); w != nil {
 			id = w.i
 			topics, idopt = jNums(w.spec.effTopics(x.sc.noOnSession)), jIDOpt(w.spec.idopt)
 		}
@@ -759,6 +795,16 @@ func (x *jx) hook(point string, a, b any) {
 	default: // 29 30 31 34 35
 		id = x.look(x.subIdx, a)
 		ev = val.L(val.N(code), val.N(id))
+	}
+	if code >= 31 && code <= 34 && id < uint64(len(x.writers)) {
+		if g := x.writers[id].share; g != nil {
+			// a shared writer: from loop.sub until the Replay is over its calls are for this subscription
+			if code == 31 {
+				g.cur = x.writers[id]
+			} else {
+				g.cur = nil
+			}
+		}
 	}
 	seq := x.appendLocked(ev, code, id)
 	x.mu.Unlock()
@@ -925,6 +971,165 @@ type jwriter struct {
 	ctx    context.Context // the context of its Subscribe call
 	cancel context.CancelFunc
 	sess   *sse.Session // via&2: the real Session every call answered ok is forwarded to
+	share  *jshare      // the writer object it shares with other subscriptions (client 10+g / 20+g)
+}
+
+// The Client values of uncomparable dynamic type: each forwards to the recording writer of its subscriber.
+type jfuncw func() *jwriter
+
+func (f jfuncw) Send(m *sse.Message) error { return f().Send(m) }
+func (f jfuncw) Flush() error              { return f().Flush() }
+
+type jslicew struct {
+	w   *jwriter
+	buf []byte
+}
+
+func (v jslicew) Send(m *sse.Message) error { return v.w.Send(m) }
+func (v jslicew) Flush() error              { return v.w.Flush() }
+
+type jmapw struct {
+	w    *jwriter
+	tags map[string]string
+}
+
+func (v jmapw) Send(m *sse.Message) error { return v.w.Send(m) }
+func (v jmapw) Flush() error              { return v.w.Flush() }
+
+// jshare is ONE writer object subscribed several times (one connection, several subscriptions): every call is
+// handed to the recording writer of the subscription it is for.
+type jshare struct {
+	x        *jx
+	members  []*jwriter
+	enter    sync.Mutex // held from before a member's Subscribe call until its sub.enter was logged
+	entering *jwriter   // the member whose Subscribe call is being entered
+	cur      *jwriter   // the member whose Replay the loop is in (x.mu)
+	last     *jwriter   // the member the last Send was for: the Flush that follows is for it too
+}
+
+// jshareV is the comparable struct value around a shared writer: two of the same group are equal.
+type jshareV struct{ g *jshare }
+
+func (v jshareV) Send(m *sse.Message) error { return v.g.Send(m) }
+func (v jshareV) Flush() error              { return v.g.Flush() }
+
+func jIntersects(a, b []uint64) bool {
+	for _, x := range a {
+		for _, y := range b {
+			if x == y {
+				return true
+			}
+		}
+	}
+	return false
+}
+
+// pick: the member a Send of m is for.
+func (g *jshare) pick(m *sse.Message) *jwriter {
+	x := g.x
+	x.mu.Lock()
+	defer x.mu.Unlock()
+	w := g.cur
+	if w == nil {
+		var topics []uint64
+		if p := x.tokOfLocked(m); p < uint64(len(x.tokMsg)) {
+			topics = x.tokMsg[p].effTopics()
+		}
+		for _, c := range g.members {
+			if !jIntersects(c.spec.effTopics(x.sc.noOnSession), topics) {
+				continue
+			}
+			reg := x.counts[[2]uint64{34, c.i}] > x.counts[[2]uint64{29, c.i}]
+			if w == nil || reg {
+				w = c // the registered member the message is for
+			}
+			if reg {
+				break
+			}
+		}
+		if w == nil {
+			w = g.members[0]
+		}
+	}
+	g.last = w
+	return w
+}
+
+func (g *jshare) Send(m *sse.Message) error { return g.pick(m).Send(m) }
+func (g *jshare) Flush() error {
+	g.x.mu.Lock()
+	w := g.last
+	if g.cur != nil {
+		w = g.cur
+	}
+	if w == nil {
+		w = g.members[0]
+	}
+	g.x.mu.Unlock()
+	return w.Flush()
+}
+
+// client: the value the subscriber's Subscription.Client holds.
+func (w *jwriter) client() sse.MessageWriter {
+	switch {
+	case w.share != nil && w.spec.client >= jClientShareV:
+		return jshareV{w.share}
+	case w.share != nil:
+		return w.share
+	case w.spec.client == jClientFunc:
+		return jfuncw(func() *jwriter { return w })
+	case w.spec.client == jClientSlice:
+		return jslicew{w: w, buf: make([]byte, 0, 16)}
+	case w.spec.client == jClientMap:
+		return jmapw{w: w, tags: map[string]string{"conn": "c"}}
+	}
+	return w
+}
+
+// writerOfLocked: the recording writer behind a Client value (a shared writer: the member whose Replay the loop is in).
+// Caller holds x.mu.
+func (x *jx) writerOfLocked(c any) *jwriter {
+	switch v := c.(type) {
+	case *jwriter:
+		return v
+	case jfuncw:
+		return v()
+	case jslicew:
+		return v.w
+	case jmapw:
+		return v.w
+	case *jshare:
+		return v.cur
+	case jshareV:
+		return v.g.cur
+	}
+	return nil
+}
+
+func (x *jx) writerOf(c any) *jwriter {
+	x.mu.Lock()
+	defer x.mu.Unlock()
+	return x.writerOfLocked(c)
+}
+
+// enteringLocked: the recording writer of the Subscribe call that logs sub.enter with Client value c.  The call of
+// a member of a shared writer was announced by its controller (jshare.enter is released here).  Caller holds x.mu.
+func (x *jx) enteringLocked(c any) *jwriter {
+	var g *jshare
+	switch v := c.(type) {
+	case *jshare:
+		g = v
+	case jshareV:
+		g = v.g
+	default:
+		return x.writerOfLocked(c)
+	}
+	w := g.entering
+	if w != nil {
+		g.entering = nil
+		g.enter.Unlock()
+	}
+	return w
 }
 
 // jsink is the ResponseWriter of a session: it can flush, it keeps nothing.
@@ -1106,7 +1311,7 @@ func (r *jrep) Put(m *sse.Message, topics []string) (out *sse.Message, err error
 
 func (r *jrep) Replay(sub sse.Subscription) error {
 	i := uint64(jUnknown)
-	w, _ := sub.Client.(*jwriter)
+	w := r.x.writerOf(sub.Client)
 	if w != nil {
 		i = w.i
 	}
@@ -1137,7 +1342,7 @@ func joeRunScenario(v val.V, seq uint64, shm []byte) (status uint64, events []va
 	x := &jx{sc: sc, counts: map[[2]uint64]uint64{}, shm: shm, last: time.Now(),
 		subIdx: map[any]uint64{}, pubIdx: map[any]uint64{}, shutIdx: map[any]uint64{},
 		callTok: map[*sse.Message]uint64{}, ptrTok: map[*sse.Message]uint64{}, idTok: map[string]uint64{},
-		parksBy: map[uint64][]*jParkSpec{}}
+		parksBy: map[uint64][]*jParkSpec{}, shares: map[uint64]*jshare{}}
 	x.cond = sync.NewCond(&x.mu)
 	x.wakeFn = func() {
 		x.mu.Lock()
@@ -1211,9 +1416,20 @@ func joeRunScenario(v val.V, seq uint64, shm []byte) (status uint64, events []va
 	for i := range sc.subs {
 		spec := &sc.subs[i]
 		w := &jwriter{x: x, i: uint64(i), spec: spec}
+		if gi, ok := spec.jShareGroup(); ok {
+			if x.shares[gi] == nil {
+				x.shares[gi] = &jshare{x: x}
+			}
+			w.share = x.shares[gi]
+			w.share.members = append(w.share.members, w)
+		}
 		x.writers = append(x.writers, w)
-		ctx, cancel := context.WithCancel(context.Background())
-		w.ctx, w.cancel = ctx, cancel
+		w.ctx, w.cancel = context.WithCancel(context.Background())
+	}
+	for i := range sc.subs { // (all writers exist before the first controller runs: the hook reads x.writers)
+		spec := &sc.subs[i]
+		w := x.writers[i]
+		ctx, cancel := w.ctx, w.cancel
 		go func() {
 			defer x.ctlEnd(true)
 			x.waitStages(spec.start, jHard, true)
@@ -1237,7 +1453,11 @@ func joeRunScenario(v val.V, seq uint64, shm []byte) (status uint64, events []va
 				if spec.via&jViaSession != 0 {
 					w.sess, _ = sse.Upgrade(&jsink{}, httptest.NewRequest(http.MethodGet, "/events", nil))
 				}
-				err := x.joe.Subscribe(ctx, sse.Subscription{Client: w, LastEventID: lastID(spec.idopt), Topics: sc.topicNames(spec.topics)})
+				if w.share != nil {
+					w.share.enter.Lock() // released when this call's sub.enter was logged
+					w.share.entering = w
+				}
+				err := x.joe.Subscribe(ctx, sse.Subscription{Client: w.client(), LastEventID: lastID(spec.idopt), Topics: sc.topicNames(spec.topics)})
 				x.rec(9, w.i, val.N(joeErrCode(err)))
 			}()
 			if spec.hasCancel && len(spec.cancel) > 0 {
